@@ -168,7 +168,7 @@ pub fn run(ctx: &Ctx) -> Result<Evidence, String> {
 
     // (b0) cold-state reference: one fresh process per pair
     RESULTS.lock().unwrap().clear();
-    let iso = Isolation { exe: exe_for("release"), args: vec!["worker".into(), "C12".into(), "pairs".into(), ctx.tier.name().into()], stack_bytes: None, mem_bytes: Some(8 << 30), env: vec![], chunk: Some(1) };
+    let iso = Isolation { exe: exe_for("release"), args: vec!["worker".into(), "C12".into(), "pairs".into(), ctx.tier.name().into()], stack_bytes: None, mem_bytes: Some(8 << 30), env: vec![], chunk: Some(1), max_deaths: 1000000 };
     let wacc = run_isolated(ctx, &pairs, &iso, ctx.threads, &|idx, d| ctx.add_inconclusive(&format!("fresh-process baseline died on pair {}: {:?}", idx, d).chars().take(120).collect::<String>(), 1));
     let baseline: HashMap<usize, Value> = RESULTS.lock().unwrap().drain(..).collect();
     acc.count("fresh_process_baselines", baseline.len() as u64);
